@@ -1541,6 +1541,14 @@ def fam_C11(rng, tier):
             else:
                 s.feed(m.suback(pid, [0]))
     out.append(s.script())
+    # real OS threads: n clones of the handle start identifier-taking operations at the same time (first poll only), all of
+    # them outstanding together. 'big-' scripts are judged by the oracle alone (the model is single-threaded: an atomic
+    # `allocPid` step per operation; this script searches for a failing input where that assumption is wrong).
+    for n, k in ([(4, 1500)] if tier == 'quick' else [(2, 4000), (4, 4000), (8, 4000), (16, 3000)]):
+        s = Sess(f'big-c11-threads-{n}x{k}')
+        s.connect()
+        s.add(f'THREADS {n} {k}')
+        out.append(s.script())
     out += fam_walk(rng, tier, 'c11-refused', 25 if tier == 'quick' else 600, lambda r: r.choice([30, 80]), clones=3,
                     recv_max=lambda r: r.choice([1, 2]), max_pkt=64,
                     weights=dict(pubbig=4, pub0=1, pub1=6, pub2=4, sub=3, unsub=3, ping=0, ack=5, inbound=0, pubrel=0, stream=0),
